@@ -18,24 +18,24 @@ CLAIMED = {
           "Machine-checked proof of the structure of the noise (which inputs each layer depends on, how many layers, floor, bounds) for all inputs; bit-exact differential execution pins the implementation to the model; metamorphic oracle on the real code (sticky, unrelated under salt/bucket/entity change, two layers of the configured sd via sample moments). Zero mean / sd / independence are distributional and NOT proved.",
           "Distribution of Box-Muller o SHA-256 trusted (partial). libm log/sqrt/sin in doubles not covered by the real-number bound.",
           "DESIGN.md §5 C03"),
-  "C04": ("Lean 4 theorems: interval compaction total/never empty/never oversized (all intervals, all entity counts), flattened sum = oc*avg + tail and its min-bounds, id-less rows add within [0,u], invariance of count/noise scale/noise when the heaviest entities contribute more (over ordered fields); bit-exact correspondence of count_multiple_contributions and compaction (exhaustive small box) with the Float model",
-          "Machine-checked proof over all contribution vectors, ties, intervals and salts in exact arithmetic; implementation tied bit for bit; metamorphic oracle evaluates the invariance and the bounds on the real code.",
-          "T04.c proved for the computation after sorting (shape of the sorted list as hypothesis); doubles: exact-arithmetic cancellation may differ at a rounding tie (oracle covers the real code).",
+  "C04": ("Lean 4 theorems: interval compaction total/never empty/never oversized, flattened sum = oc*avg + tail and its min-bounds, id-less rows add within [0,u], invariance of count / noise scale / noise when the heaviest entities contribute more rows - from the unsorted contribution table (the sorted list is the unique key-decreasing arrangement; raised heads stay heads) - over ordered fields; bit-exact correspondence of count_multiple_contributions and compaction with the Float model; metamorphic oracle on the real code",
+          "Machine-checked proof over all contribution vectors, ties, intervals and salts in exact arithmetic, per id column; implementation tied bit for bit; metamorphic oracle evaluates the invariance and the bounds on the real code.",
+          "Doubles: with several id columns a tie between the columns' flattening amounts can flip by rounding (known finding F13, found by the thorough tier).",
           "DESIGN.md §5 C04"),
-  "C18": ("Lean 4 theorems (step lemmas for any number of dimensions: child-index bits, dimension removal, child ranges = selected halves, routed row stays in range, split test => not a point / >= low_threshold entities per id column / qualifying projection, tight range = hull growth, outlier folding touches no range) + bit-exact correspondence of whole forests (column ranges, null stand-ins, every 1-3 column tree with sub-nodes, stubs, push-down, counters) with the executable Lean model + the invariant evaluated on every real tree",
-          "Machine-checked proof of the step facts for all inputs; executable model of tree.py/forest.py reproduces the real trees bit for bit on every run (noise, explicit ids, all parameter sets); the full invariant is evaluated on the real trees by an independent oracle that locates projections by ranges. The lift of the step lemmas to whole insertion histories is not yet a Lean theorem (partial).",
-          "Global induction over insertion histories not proved; known finding: tight range in >=2-dim trees includes rows beyond a column's final root range.",
+  "C18": ("Lean 4 theorems by induction over whole insertion histories: the tree invariant TInv (unique child keys, children = selected halves with the parent's columns/seed and extended path, every row under the child it routes to, in-range rows inside every range above them, tight range = hull of the rows held, stub flag, entity counter = rows held, branch licences, sub-nodes = projections) is preserved by add_row; the 1-dim push-down and outlier folding keep it with an exempt set of rows that lie beyond the final root range; every tree Forest hands out (any number of columns) satisfies it and holds every row exactly once + bit-exact correspondence of whole forests with the executable Lean model + the invariant evaluated on every real tree by an independent oracle",
+          "Machine-checked proof of the invariant for every node of every tree of every forest, for all tables, id layouts, salts and parameters (hashes and noise uninterpreted, exact arithmetic), conditional on the modelled build finishing; the executable model reproduces the real trees bit for bit on every run.",
+          "Conditional on the recursion budget (Python's recursion limit; known finding F10). Hull clause proved for rows not folded in as outliers; known finding: in >=2-dim trees rows beyond a column's final root range widen the tight range.",
           "DESIGN.md §5 C18"),
-  "C01": ("Lean 4 theorems (filter passes => >= low_threshold distinct entities per id column, for both counter kinds incl. saturation; suppressed leaves emit nothing; safe string values only from singular 1-dim leaves that pass the filter, by induction over the tree; verbatim strings only for safe indices) + bit-exact correspondence of trees, harvest (buckets) and microdata with the executable model + every released range of every real bucket and every verbatim string of real synthetic tables checked against the entities whose own values fall inside it",
-          "Machine-checked proof of the mechanisms that make the floor hold, for all inputs; model of tree/bucket/microdata tied bit for bit; the floor itself is evaluated on every real release (harvest of all 1-3 column combinations, Synthesizer.sample() with rare strings, several id columns, thresholds in unusual order). Provenance of refined buckets is not yet a Lean theorem (partial).",
-          "Partial: refine provenance. Known finding: a rare string at the edge leaf with folded outliers is released verbatim (C01 floor-string-edge-leaf-with-folded-outliers).",
+  "C01": ("Lean 4 theorems: passing the filter needs >= low_threshold distinct entities per id column (both counter kinds); through the whole stateful harvest (cached sub-trees, refinement, in-place rescaling of shared bucket objects) every range of every returned bucket is the released range, for the same column, of a node of a forest tree that is a branch or a filter-passing leaf; such a node holds >= low_threshold entities whose non-folded rows have their values inside that range; safe strings only from singular filter-passing 1-dim leaves; verbatim strings only for safe indices + bit-exact correspondence of trees, harvest and microdata + every released range and verbatim string of real releases checked against the entities whose own values fall inside it",
+          "Machine-checked proof of the floor for every bucket of every harvest of every forest tree (leaf, branch and refined buckets), for all inputs over exact arithmetic with hashes and noise uninterpreted; model tied bit for bit; the floor is also evaluated on every real release.",
+          "Composition with microdata/stitching into one theorem about sample() not done; low_threshold >= 0. Known finding F12: a rare string at the edge leaf with folded outliers is released verbatim.",
           "DESIGN.md §5 C01"),
-  "C10": ("Lean 4 theorems (carry-loop rescaling sums to target or target-1 with non-negative counts for every list/target over ordered fields with floor; harvest output positive; microdata emits one row per unit for every RNG stream) + bit-exact correspondence of _adjust_counts, harvest (with refinement and cache aliasing via an explicit cell store) and generate_microdata + totals checked on every real bucket list",
-          "Machine-checked proof of the rescaling kernel and the row-count identity for all inputs; executable model of bucket.py reproduces real bucket lists bit for bit (1-3 columns, refinement, recorded RNG); conservation through the recursion evaluated on every real harvest (partial as a theorem).",
-          "Partial: induction over the stateful harvest. Doubles vs exact arithmetic in the carry loop (oracle covers the real sums).",
+  "C10": ("Lean 4 theorems: the rescaling kernel sums to target or target-1 with non-negative counts; conservation through the whole harvest (for every well-shaped tree, hence every forest tree, and every RNG stream the buckets are none or add up to the root's released count or one less; as many ranges as columns) proved with ghost cell ownership, a frame by tree dimension and disjointness of sibling lists; harvest output positive; microdata emits one row per unit + bit-exact correspondence of _adjust_counts, harvest and generate_microdata + totals checked on every real bucket list",
+          "Machine-checked proof of every clause for all inputs over exact arithmetic (low_threshold >= 0); executable model of bucket.py reproduces real bucket lists bit for bit (1-4 columns, refinement, recorded RNG).",
+          "Doubles vs exact arithmetic in the carry loop (oracle covers the real sums).",
           "DESIGN.md §5 C10"),
-  "C11": ("Lean 4 theorems (uniform draw inside the range, singular exact, null range -> null, affine inverse monotone, rounding within 1/2, string index range and result shape incl. mask = common prefix + '*' + index, common prefix is a prefix) for every RNG state + exact correspondence of generate_microdata cells on real and synthetic bucket lists (all convertor kinds, negative null stand-ins, ranges sharing a lower bound)",
-          "Machine-checked proof for all ranges and RNG states over exact arithmetic; cells of the real generate_microdata compared exactly with the model (incl. Python round(x,p) replica and MinMaxScaler coefficients); property evaluated on every generated cell.",
+  "C11": ("Lean 4 theorems (uniform draw inside the range, singular exact, null range -> null, affine inverse monotone, rounding within 1/2, string index range and result shape, the mask prefix is a prefix of every string of the range for value maps sorted by code points) for every RNG state + exact correspondence of generate_microdata cells on real and synthetic bucket lists",
+          "Machine-checked proof for all ranges and RNG states over exact arithmetic; cells of the real generate_microdata compared exactly with the model (incl. Python round(x,p) replica and MinMaxScaler coefficients); property evaluated on every generated cell; the sortedness hypothesis is checked on every real string convertor.",
           "MinMaxScaler coefficients and Python round semantics trusted, validated by exact cell comparison.",
           "DESIGN.md §5 C11"),
   "C12": ("Lean 4 theorems by induction over the stitch recursion for every RNG stream and opaque rows: every result row merges one actual left and one actual right row, left owner preserves the left table as a multiset, patch keeps left rows in order, shared-owner row count within the 0.7 bounds (ordered field) + exact correspondence of build_table steps on labelled synthetic microtables + C12 oracle on build_table and syndiffix.stitch()",
@@ -46,9 +46,9 @@ CLAIMED = {
           "Machine-checked proof of well-formedness/completeness for all inputs; model tied exactly (plans equal incl. annealing trajectory); Synthesizer-level check that a main column given by name or index (0 included) is honoured.",
           "CPython set iteration order replica validated, not proved (theorems hold for every order). Determinism = the model is a function; checked on the implementation by re-running.",
           "DESIGN.md §5 C13"),
-  "C05": ("Lean 4 theorems (bucket seed depends on the sets of column names and range labels only, entity seed on the set of ids only, noise on (salt, bucket seed, entity seed) only; the model is a pure function of its recorded inputs) + bit-exact correspondence of trees and node counts + equal digests of sample() for six strategies across fresh interpreters with different PYTHONHASHSEED and perturbed global RNG state + identical tree dumps / bucket lists for table vs superset vs moved columns + a syntactic allow-list of randomness / clock call sites re-read from /repo on every run",
-          "Determinism of the implementation is established as 'equals the pure model' (bit-exact correspondence) plus cross-process digests; consistency across supersets and positions is evaluated on real forests (full dumps). The congruence 'tree of a column set is a function of those columns' is not a Lean theorem (partial).",
-          "CPython random.Random determinism trusted. Partial: T05.b not stated in Lean.",
+  "C05": ("Lean 4 theorems: seeds depend on sets of names / labels / ids only; position independence - over any table that agrees on a combination's columns up to an injective renaming of positions, add_row, the whole tree, every released count and the harvested bucket list (simulation through the stateful harvest) are the same, stated for the generic scalar so they hold of the Float model + bit-exact correspondence of trees and node counts + equal digests of sample() across fresh interpreters (PYTHONHASHSEED, perturbed global RNG) + identical dumps / bucket lists for table vs superset vs moved columns + allow-list of randomness / clock call sites re-read from /repo",
+          "Machine-checked proof of the consistency clause for trees, counts and buckets; determinism of the implementation is established as 'equals the pure model' (bit-exact correspondence, incl. the composed model of sample()) plus cross-process digests.",
+          "CPython random.Random determinism trusted.",
           "DESIGN.md §5 C05"),
   "C15": ("Lean 4 theorems (invalid requests rejected before anything else; a catalog hit is exactly the stored combination; otherwise the plan delivers every requested column once (C13) and stitches return column unions (C12)) + correspondence of the read decision (invalid / stored / stitched) + every read of generated blobs checked end to end (columns, order, kinds, stored combination as stored, fresh reader repeatable, caller's list untouched, ValueError on invalid)",
           "Proof of the decision logic and of the plan/column algebra; the data path (syndiffix.stitch over stored tables) is exercised end to end on real blobs (3-5 mixed columns, with/without ids, max_cluster_size 2-3 so that requests are stitched, column names with shared prefixes).",
@@ -62,21 +62,21 @@ CLAIMED = {
           "Machine-checked invariant over all schedules of the process/file machine; the machine is tied to the real function by replaying generated schedules (threads, module-global interposition, real file system) and comparing per-process outcome and final file; the property is also evaluated directly on the real outcomes.",
           "File-system semantics (atomic no-overwrite link, private mkstemp names, loss of unflushed data) trusted. Secrecy clause: syntactic + byte scan only (partial).",
           "DESIGN.md §5 C06"),
-  "C07": ("Lean 4 theorems the schema/domain clauses are assembled from (well-formed plans cover every column exactly once, stitch columns = union, nulls only from the null range, strings are value-map entries or prefix*index, one row per unit) + exact correspondence of the plan, stitch and microdata models + Synthesizer.sample() run on generated tables of every type under every strategy with schema/dtype/domain checks",
-          "Proof of the pieces for all inputs; the composition (pandas astype, scikit-learn scaler/RFECV, orchestration) is exercised end to end on every run: 1-7 columns, 1-400 rows, all kinds, nulls, with/without ids, all strategies incl. main column 0 and ML target. Totality of the whole pipeline is not a Lean theorem (partial).",
-          "pandas/scikit-learn outside the model. Known finding: RecursionError for float values closer than ~2^-900 of the column range.",
+  "C07": ("Lean 4 theorems: well-formed plans cover every column once, the composed build_table returns exactly the plan's columns, the whole default-strategy synthesis in the model ends with a well-formed plan and exactly the input's columns; nulls only from the null range, strings are value-map entries or prefix*index, one row per unit + value-exact correspondence of the composed model of sample() (one cluster; all clusters with stitching; the default strategy with measures and plan search) with the real Synthesizer + sample() run on generated tables of every type under every strategy with schema/dtype/domain checks",
+          "Proof of the schema and domain clauses of the composed model for all inputs; the composed model reproduces sample() value for value; pandas astype / scikit-learn are exercised end to end on every run. That the run completes is not a theorem.",
+          "pandas/scikit-learn outside the model. Known findings: RecursionError for float values closer than ~2^-900 of the column range (F10); ValueError when a cluster's microtable is empty while the table so far is not (F14, found by the thorough tier).",
           "DESIGN.md §5 C07"),
   "C14": ("Lean 4 theorems (matrix symmetric with unit diagonal for every forest, every score in [0,1], weighted mean in [0,1], entropy >= 0 when released shares are <= 1) + bit-exact correspondence of measure_all (entropies and dependency matrix, joint walk incl. singular branches and folded outliers) + bounds and ranking claims evaluated on real forests",
           "Machine-checked proof of the bounded/symmetric clauses for all inputs over exact arithmetic; measures.py modelled and compared bit for bit (log2 from the same libm); the statistical ranking clauses are NOT proved - they are evaluated on seeded tables and reported as support; gross deviations are reported as failures.",
           "Ranking clauses statistical (partial; known finding: one-to-one dependence can fall to ~0.56 for 5/8 categories). Entropy sign needs shares <= 1, not guaranteed under noise.",
           "DESIGN.md §5 C14"),
-  "C08": ("Lean 4 theorems: released count of N rows within 17*sd+1/2 of N (two layers, deviate bound proved over the reals), a group of N >= lt+(gap+8.5)sd always passes, noise off => hard floor only, rescaling loses at most one unit, one row per unit, patch keeps the left count + bit-exact correspondence of trees/harvest + len(sample()) checked against the bound on generated tables",
-          "Machine-checked proof of each link of the row-count chain; the chain itself (root true count = N, harvest total = root count or one less) is evaluated on every real table (single / none / default clustering, noise on and off, outliers, nulls, 1-400 rows).",
-          "Composition into one theorem about sample() not done (partial). Double-precision libm not covered by the real-number bound.",
+  "C08": ("Lean 4 theorems: released count of N rows within 17*sd+1/2 of N, large groups pass, noise off => hard floor only, rescaling loses at most one unit, one row per unit, patch keeps the left count, every forest tree holds every row exactly once, and composed for one cluster: rows = the root's released count or one less, or none + bit-exact correspondence of trees/harvest and of the composed one-cluster sample + len(sample()) checked against the bound on generated tables",
+          "Machine-checked proof of each link of the row-count chain and of its composition for one cluster; across clusters the chain is the stitching theorems (C12); evaluated on every real table.",
+          "Double-precision libm not covered by the real-number bound.",
           "DESIGN.md §5 C08"),
-  "C09": ("Lean 4 theorems: a singular node releases its exact values, a draw from a single-point range is that point for every RNG state, rescaling by ratio 1 is the identity, the null range decodes to null + exact correspondence of microdata cells and trees + multiset equality of sample() and input on generated well-populated tables (every type, scales 1e-9..1e9, neighbours at the 10th-12th significant digit, dates, second-resolution timestamps, nulls)",
-          "Proof of the model-level facts; exact reproduction itself is checked on every generated well-populated table; numeric decoding rests on double-precision behaviour of scaler/round, pinned cell-exactly by S-micro.",
-          "T09.a (all leaves singular under the population hypothesis) not a Lean theorem (partial).",
+  "C09": ("Lean 4 theorems: a singular node releases its exact values, a draw from a single-point range is that point, rescaling by ratio 1 is the identity, the null range decodes to null, a leaf of a forest tree holds all rows of each value combination it holds + exact correspondence of microdata cells and trees + multiset equality of sample() and input on generated well-populated tables",
+          "Proof of the model-level facts; exact reproduction itself is checked on every generated well-populated table; numeric decoding rests on double-precision behaviour of scaler/round, pinned cell-exactly.",
+          "'All leaves singular under the population hypothesis' not a Lean theorem (partial).",
           "DESIGN.md §5 C09"),
 }
 NOT_YET = "check not built yet in this work session (model/theorems in progress); see DESIGN.md §5 for the plan"
